@@ -126,6 +126,15 @@ def make_queries(o, rnd, heavy):
     q.append(("OPD.rms", (lambda w=w: OPD(o, (0, Hy if abs(Hy) <= 1 else 1.0), w, num_rings=4).rms()), []))
     q.append(("SpotDiagram", lambda: [SpotDiagram(o, num_rings=3).data, SpotDiagram(o, num_rings=3).centroid(),
                                       SpotDiagram(o, num_rings=3).rms_spot_radius()], []))
+    # analysis objects that live through the session: every accessor is a pure query of the object -
+    # asking for one result must not change what the others (or the same one) return later
+    sd = SpotDiagram(o, num_rings=3)
+    q.append(("SpotDiagram object .centroid()", lambda: sd.centroid(), []))
+    q.append(("SpotDiagram object .rms_spot_radius()", lambda: sd.rms_spot_radius(), []))
+    q.append(("SpotDiagram object .geometric_spot_radius()", lambda: sd.geometric_spot_radius(), []))
+    q.append(("SpotDiagram object .data", lambda: sd.data, []))
+    wfo = Wavefront(o, num_rays=4)
+    q.append(("Wavefront object .data", lambda: wfo.data, []))
     q.append(("RayFan", lambda: RayFan(o, num_points=16).data, []))
     q.append(("Distortion", lambda: Distortion(o, num_points=16).data, []))
     q.append(("FieldCurvature", lambda: FieldCurvature(o, num_points=8).data, []))
